@@ -407,6 +407,11 @@ func main() {
 							run(c)
 							h.Sample(func() interface{} { return c })
 							h.Section("hook-registration", 1)
+							if cuts == nil {
+								c.Hooks.Shared = true // registered through slices the caller goes on using
+								run(c)
+								h.Section("hook-registration-shared-slices", 1)
+							}
 						}
 					}
 				}
